@@ -1157,7 +1157,12 @@ fn meta_mutator_cases(eps: &[(String, String)], thorough: bool, f: &mut dyn FnMu
                 let recv = if module == "tuple" { "(c, e, 1)" } else if module == "iterator" && init.starts_with("c = {") { "c.values()" } else { "c" };
                 for args in ["", "e", "|x| x", "|x| e", "e, e", "|a, b| e", "0, |a, b| e", "1", "(e, 1)", "[e]"] {
                     let text = format!("{}\n{}{}\nr = ({}).{}({})\nif koto.type(r) == 'Iterator'\n  r = r.to_tuple()\nsize c\n", init, meta_body(mutation), put, recv, name, args);
-                    f(Case { kind: 'R', text, group: "meta-mutator", apis: vec![api.clone(), "gen:meta-mutator".to_string()] });
+                    let mut apis = vec![api.clone(), "gen:meta-mutator".to_string()];
+                    if module == "iterator" && matches!(name.as_str(), "cycle" | "repeat" | "generate") {
+                        // the template collects the result: an endless sequence — the result would have to hold it all
+                        apis.push(UNBOUNDED_GROWTH.to_string());
+                    }
+                    f(Case { kind: 'R', text, group: "meta-mutator", apis });
                 }
             }
         }
@@ -1835,7 +1840,7 @@ fn file_io_cases(thorough: bool, f: &mut dyn FnMut(Case)) {
                 emit(&format!("File.{}", m), format!("cy = [1]\ncy.push cy\nob = {{@display: || throw 'no'}}\nf = null\n{}r = {}.{}({})\n(r, {}.{}({}))\n", pre, name, m, a, name, m, a));
             }
         }
-        for op in ["'{X}'", "koto.copy X", "koto.deep_copy X", "X == X", "X != f", "koto.hash X", "koto.type X", "size X", "X.foo", "for x in X\n  x", "X[0]", "X + 1", "{(X): 1}", "[X, X].sort()", "X()", "X.path().to_tuple()", "debug X"] {
+        for op in ["'{X}'", "koto.copy X", "koto.deep_copy X", "X == X", "X != f", "koto.hash X", "koto.type X", "size X", "X.foo", "for x in X\n  x", "X[0]", "X + 1", "m = {}\nm.insert X, 1", "[X, X].sort()", "X()", "X.path().to_tuple()", "debug X"] {
             emit("File.@ops", format!("f = null\n{}{}\n", pre, op.replace('X', name)));
         }
     }
@@ -1878,6 +1883,8 @@ fn file_io_cases(thorough: bool, f: &mut dyn FnMut(Case)) {
 //          an allocation abort is a VIOLATION (a reservation for a size that is never reached) -------------
 
 const ALLOC_EXCLUDED: &str = "excluded:allocation-request";
+/// the script collects an endless sequence / grows a container in an endless loop
+const UNBOUNDED_GROWTH: &str = "excluded:unbounded-growth";
 
 fn size_argument_cases(eps: &[(String, String)], thorough: bool, f: &mut dyn FnMut(Case)) {
     let huge_all = [
